@@ -42,3 +42,8 @@ package iqr
 //@   modifies ghost(iqr, "iqrN"), iqr.rrcs, iqr.isDirty
 //@   ensures implies(result == nil && other != nil, ghost(iqr, "iqrN") == old(ghost(iqr, "iqrN")) + ghost(other, "iqrN"))
 //@ end
+
+//@ func (*IQR).GetColumns
+//@   assumed
+//@   pure
+//@ end
